@@ -1,6 +1,7 @@
 import TrionModel.Lemmas.AsmHist
 import TrionModel.Lemmas.AsmEnc
 import TrionModel.Props.C05
+import TrionModel.Lemmas.AsmRefineRun
 /-!
 # C05 (pipeline clause) — the image of the whole pipeline is an image of the layout core
 
@@ -20,24 +21,31 @@ Proved here:
 * `image_is_layout_core`: hence the image a successful run outputs is, address by address, the closed image the
   layout core of C05 computes for the same sequence of region operations.
 
-FULL-STRENGTH STATEMENT (kept visible; not proved):
-    theorem layout_refines_asm : run fs main = .done o → o.success → SingleFile fs main →
-      ∃ p : List Layout.Stmt, IsAbstraction fs main p ∧ Layout.run p = .ok img ∧ ∀ a, img.get a = abs o.image a
-  (so that `Layout.layout_refines` gives `abs o.image = Ref.layout p`).  What exists towards it:
-  * the deferred path as exact equations (Lemmas/AsmDefer.lean): `instr_deferred` (placeholder of the final length +
-    queued task carrying the front-end state), `instr_task_active` / `task_rewrites_range` (the task rewrites exactly
-    the placeholder range with the final bytes, nothing else changes), `localLoop_chain`, `run_of_statements_tasks`;
-    used end to end for printed programs in C19 `show_run_forward` and C20 `listing_roundtrip`;
-  * the region-level theorem below, for every project.
-  Still missing for the program-level statement on ARBITRARY single-file sources: (i) the history of a single-file run
-  has the shape statements ++ rewrites ++ [close] — the history carried by `Ext` is existential and does not record
-  that statements only `place` and tasks only `rewrite`; (ii) the queue of `Asm` lists exactly the deferred first writes
-  in order, so that the rewrites are the `runTasks` of `Layout.run` for the program whose `emit` statements carry the
-  bytes the tasks write; (iii) that these bytes are the statement's bytes in the final symbol table for arbitrary
-  operand expressions — the general retry theorem for `Front.assemble` over a growing table (C08 `retry_commutes` /
-  `eval_commutes` per operand, plus the stability of already evaluated operands); for the printed instructions of
-  C19/C20 this is `Show.show_retry`.  The correspondence run compares `Asm.run`, `Layout.run` of the harness's
-  abstraction and the reference on every generated program (`model.asm.run`, `model.layout.run`, `model.layout.ref`).
+PROGRAM-LEVEL STATEMENT (proved below, `layout_refines_asm`): for a project consisting of ONE file without
+`.include / .global / .import / .export` whose operand trees are `plain` (`SingleFile`, a predicate on the parsed
+elements), a successful run's image IS the two-pass reference layout of the program:
+    run fs main = .done o → o.success →
+      ∃ t₂, with p := abstract num fs encoder main t₂ none els:
+        (∀ s ∈ p, s.wf) ∧ Layout.run p = .ok img ∧ (∀ a, abs o.image a = img.get a) ∧
+        Ref.pass2 none [] p = some img' ∧ (∀ a, abs o.image a = img'.get a) ∧
+        (NoLabelAtTop p → Ref.layout p = some img'' ∧ (∀ a, abs o.image a = img''.get a) ∧
+                          Ref.pass1 none [] p = some env ∧ EnvRel num t₂ env)
+  `abstract` (Lemmas/AsmAbs.lean) turns the parsed statements into `Layout.Stmt`s given the file's FINAL symbol table
+  `t₂` and the reference cursor: `.addr a`, `.align n`, `label`, `const` with its value and the names it needs, `raw` for
+  `.dstr/.dhex/.dfile` and for instructions / `.du*` whose evaluated operands contain no identifier, `emit len deps final`
+  otherwise (`final` = the statement's bytes with every name taken from `t₂`).  The last clause closes the loop: `t₂`
+  is, name by name, the symbol table `Ref.pass1` computes for that very program.
+  The three gaps of the previous round are closed by: (i)+(ii) the statement-by-statement simulation `statement_sim`
+  (Lemmas/AsmRefineStmt.lean: one statement of `Asm` = one `Layout.step` on its abstraction, the local queue of `Asm` and
+  the task list of the layout core related entry by entry — `TasksRel`), `doAssemble_sim`, `runTask_sim`,
+  `localLoop_sim`, `run_sim` (Lemmas/AsmRefineRun.lean); (iii) the general retry theorem `Front.assemble_retry` /
+  `Asm.data_retry` (Lemmas/AsmRetry.lean, property level: Props/C08Asm.lean).
+  Hypothesis `plain` (every sub-tree an interrupted evaluation has completed is a leaf, register-free arithmetic or
+  `Rn + c`):
+  needed because `evaluate` is not idempotent on its own output (`Simp.resumes_false`); it covers `imm`,
+  `label ± expr`, `[Rn + expr]`, `[expr + Rn]`, `[Rn + sym + 4]`, `[Rn + 4 + sym]`, register lists, every `.du*`
+  arithmetic.
+  `NoLabelAtTop` is needed for `Ref.layout` (pass 1) only, exactly as in `Layout.ref_defined`.
 -/
 namespace Trion.Asm
 open Trion Trion.SegLayout
@@ -64,5 +72,114 @@ theorem lstep_is_step (l : Layout.State) :
 -- non-vacuity: a history with a region switch replays on the layout core
 example : lfold {} [(.select 4, .ok), (.append [1, 2], .ok), (.select 0, .ok), (.append [9], .ok), (.close, .ok)] =
     .ok { closed := [(0, 9), (4, 1), (5, 2)], active := none } := rfl
+
+
+/-! ## the program-level theorem -/
+
+/-- a single-file project: no `.include / .global / .import / .export`, every operand tree `plain` -/
+def SingleFile (els : List Element) : Prop := ∀ el ∈ els, okEl el = true ∧ plainEl el = true
+
+theorem valueStmt_wf (num : Bytes → Nat) {len : Nat} (deps : List Bytes) {final : Bytes} (h : final.length = len) :
+    (valueStmt num len deps final).wf = true := by
+  unfold valueStmt
+  split <;> simp [Layout.Stmt.wf, h]
+
+theorem absStmt_wf (num : Bytes → Nat) (fs : Bytes → Option Bytes) (path : Bytes) (t : Table) (c : Option Nat) (el : Element) :
+    (absStmt num fs encoder path t c el).wf = true := by
+  unfold absStmt
+  repeat' split
+  all_goals first
+    | rfl
+    | exact valueStmt_wf num _ (instrFinal_length encoder_len _ _ _ _)
+    | exact valueStmt_wf num _ (duFinal_length _ _ _)
+
+/-- the abstraction is a well-formed program of the layout core: every `emit` has bytes of the declared length -/
+theorem abstract_wf (num : Bytes → Nat) (fs : Bytes → Option Bytes) (path : Bytes) (t : Table) :
+    ∀ (els : List Element) (c : Option Nat), ∀ s ∈ abstract num fs encoder path t c els, s.wf = true := by
+  intro els
+  induction els with
+  | nil => intro c s hs; simp [abstract] at hs
+  | cons el els ih =>
+    intro c s hs
+    simp only [abstract, List.mem_cons] at hs
+    rcases hs with rfl | hs
+    · exact absStmt_wf ..
+    · exact ih _ s hs
+
+/-- C05 (pipeline, program level)  **`layout_refines_asm`**.  A single-file project (`SingleFile` on the parsed
+elements of the main file), any numbering `num` of the symbol names: if the whole pipeline `Asm.run` succeeds, then
+there is a symbol table `t₂` — the file's final table — such that for the program `p = abstract … t₂ none els`
+(every value-dependent statement carrying the bytes it has when all names are taken from `t₂`):
+* `p` is well formed and `Layout.run p` succeeds with, address by address, the output image;
+* the image is the `pass2` image of the two-pass reference (every statement's bytes at its address, in source order);
+* if no label stands at the cursor 2^32, `Ref.layout p` is defined and equals the image, and `t₂` is the symbol
+  table of the reference's pass 1 (so the bytes of `p` are the bytes in the reference's own final table). -/
+theorem layout_refines_asm {num : Bytes → Nat} (hinj : Function.Injective num) (fs : Bytes → Option Bytes) (main data : Bytes)
+    (hfs : fs main = some data) (els : List Element) (perr : Option ParseErr) (hparse : parseFile data = .ok (els, perr))
+    (hsf : SingleFile els) (o : Outcome) (h : run fs main = .done o) (hs : o.success = true) :
+    ∃ t₂ : Table,
+      (∀ s ∈ abstract num fs encoder main t₂ none els, s.wf = true) ∧
+      (∃ img, Layout.run (abstract num fs encoder main t₂ none els) = .ok img ∧ ∀ a, Map.abs o.image a = img.get a) ∧
+      (∃ img', Layout.Ref.pass2 none [] (abstract num fs encoder main t₂ none els) = some img' ∧
+        ∀ a, Map.abs o.image a = img'.get a) ∧
+      (Layout.NoLabelAtTop (abstract num fs encoder main t₂ none els) →
+        ∃ img'' env, Layout.Ref.layout (abstract num fs encoder main t₂ none els) = some img'' ∧
+          (∀ a, Map.abs o.image a = img''.get a) ∧
+          Layout.Ref.pass1 none [] (abstract num fs encoder main t₂ none els) = some env ∧ EnvRel num t₂ env) := by
+  obtain ⟨t₂, img, lst, _, hsteps, henvr, hrun, himg⟩ := run_sim hinj fs main data hfs els perr hparse hsf o h hs
+  have hwf := abstract_wf num fs main t₂ els none
+  refine ⟨t₂, hwf, ⟨img, hrun, himg⟩, ?_, fun hl => ?_⟩
+  · obtain ⟨img', p1, p2⟩ := Layout.run_is_pass2 _ img hrun hwf
+    exact ⟨img', p1, fun a => by rw [himg a, p2 a]⟩
+  · have hdef := Layout.ref_defined _ img hrun hwf hl
+    cases hr : Layout.Ref.layout (abstract num fs encoder main t₂ none els) with
+    | none => exact absurd hr hdef
+    | some img'' =>
+      have heq := Layout.layout_refines _ img img'' hrun hwf hr
+      exact ⟨img'', lst.env, rfl, fun a => by rw [himg a, heq a], Layout.symbols_agree _ lst hsteps hwf hl, henvr⟩
+
+/-- C05 (no placeholder survives, program level): in the image of a successful single-file run every statement of the
+abstraction stands with its final bytes at its reference address — in particular every instruction / `.du*` that was
+written as 0xBE… when it was met and rewritten by the task queue. -/
+theorem every_statement_placed_asm {num : Bytes → Nat} (hinj : Function.Injective num) (fs : Bytes → Option Bytes)
+    (main data : Bytes) (hfs : fs main = some data) (els : List Element) (perr : Option ParseErr)
+    (hparse : parseFile data = .ok (els, perr)) (hsf : SingleFile els) (o : Outcome) (h : run fs main = .done o)
+    (hs : o.success = true) :
+    ∃ t₂ : Table, ∀ q r s, abstract num fs encoder main t₂ none els = q ++ s :: r → s.emits = true →
+      ∃ c, Layout.Ref.cursorAfter none q = some c ∧
+        ∀ i, i < (Layout.Ref.bytes c s).length → Map.abs o.image (c + i) = (Layout.Ref.bytes c s)[i]? := by
+  obtain ⟨t₂, img, lst, _, _, _, hrun, himg⟩ := run_sim hinj fs main data hfs els perr hparse hsf o h hs
+  refine ⟨t₂, fun q r s hp hs' => ?_⟩
+  obtain ⟨c, h1, h2⟩ := Layout.every_statement_placed _ q r s img hrun (abstract_wf num fs main t₂ els none) hp hs'
+  exact ⟨c, h1, fun i hi => by rw [himg]; exact h2 i hi⟩
+
+/-! ### non-vacuity
+
+The statements `.addr 16; B x; .du16 y + 1; x: ; .const y, 6` (forward references in an instruction and in a data
+directive): the predicate `SingleFile` holds, the abstraction over the final table `{x ↦ 20, y ↦ 6}` is the expected
+program of the layout core, and `Layout.run` and the reference agree on it.  (That `Asm.run` succeeds on sources like
+this one — forward branches, labels, data — is C19 `show_run_forward` / C20 `listing_roundtrip`; the correspondence run
+evaluates `Asm.run`, `Layout.run` of this abstraction and the reference on every generated program.) -/
+
+def exEls : List Element :=
+  [⟨1, 1, .directive (bytesOf "addr") (.cons (.const 16) .nil)⟩,
+   ⟨2, 1, .instruction [66] (.cons (.ident [120]) .nil)⟩,
+   ⟨3, 1, .directive (bytesOf "du16") (.cons (.bin .add (.ident [121]) (.const 1)) .nil)⟩,
+   ⟨4, 1, .label [120]⟩,
+   ⟨5, 1, .directive (bytesOf "const") (.cons (.ident [121]) (.cons (.const 6) .nil))⟩]
+
+def exNum : Bytes → Nat := fun b => b.foldl (fun n x => n * 257 + x.toNat + 1) 0
+
+example : SingleFile exEls := by
+  intro el hel
+  simp only [exEls, List.mem_cons, List.not_mem_nil, or_false] at hel
+  rcases hel with rfl | rfl | rfl | rfl | rfl <;> exact ⟨by decide, by rfl⟩
+
+example : abstract exNum (fun _ => none) encoder [109] [([120], some 20), ([121], some 6)] none exEls =
+      [.addr 16, .emit 2 [121] [0, 224], .emit 2 [122] [7, 0], .label 121, .const 122 [] 6] ∧
+    Layout.run [.addr 16, .emit 2 [121] [0, 224], .emit 2 [122] [7, 0], .label 121, .const 122 [] 6] =
+      .ok [(16, 0), (17, 224), (18, 7), (19, 0)] ∧
+    Layout.Ref.layout [.addr 16, .emit 2 [121] [0, 224], .emit 2 [122] [7, 0], .label 121, .const 122 [] 6] =
+      some [(18, 7), (19, 0), (16, 0), (17, 224)] := ⟨by rfl, by rfl, by rfl⟩
 
 end Trion.Asm
